@@ -15,7 +15,7 @@ TYPED_SRC = '''
 from __future__ import annotations
 from typing import *
 class TTrk:
-    pass
+    def ptS(self, k: int = 5) -> int: ...
 class TJet:
     def ptS(self, k: int = 2) -> int: ...
     def Trs(self, w: int = 1) -> Iterable[TTrk]: ...
@@ -73,6 +73,13 @@ EXTRA = {
         ("SI", "e.jets.SelectMany(lambda j: j.tr).Where(lambda t: t.q > e.a).Select(lambda t: t.q)"),
         ("SI", "e.jets.Select(lambda j: j.pt).Where(lambda p: p > e.a).Select(lambda p: p + e.b)"),
         ("SSI", "e.jets.Select(lambda j: j.tr.Select(lambda t: t.q + j.pt + e.a))"),
+        # a nested lambda re-using the outer parameter's name, the outer parameter used again afterwards; the two classes
+        # declare the same method with different defaults
+        ("SI", "e.Jets().Select(lambda j: j.Trs().Select(lambda j: j.ptS()).Count() + j.ptS())"),
+        ("SI", "e.Jets().Select(lambda e: e.Trs().Select(lambda e: e.ptS(k=1)).Count() + e.ptS())"),
+        ("X", "e.Jets().Select(lambda j: (j.Trs().Select(lambda j: j.ptS()), j.ptS()))"),
+        # a keyword argument of a method called on First(...)
+        ("I", "e.jets.First().ptS(k=3)"), ("I", "e.Jets().First().ptS(k=3)"), ("I", "e.jets.Where(lambda j: j.pt > 1).First().ptS(k=3) + 1"),
         ("I", "(lambda: e.a)() + e.b"), ("X", "(lambda x, y: (y, x))(e.a, e.b)"), ("X", "(lambda x, y: (y, x))(y=e.a, x=e.b)"),
     ],
     "I": [("I", "e + 1"), ("B", "e > 1"), ("X", "(e, e)"), ("I", "helper(e)"), ("I", "e + V"), ("I", "-e"),
